@@ -45,7 +45,14 @@ extern "C" void harness(void)
 {
   // ---- inputs
   SL T; T.draw(EMASK, MULT);
+#if defined(FILLFIRST) && OUTSYM
+#error FILLFIRST needs OUTSYM=0 (the whole relation is requested)
+#endif
+#ifdef FILLFIRST
+  unsigned out = NQ + FILL;
+#else
   unsigned out = OUTSYM ? vs_range(NQ + 1) : NQ;
+#endif
 #if MODE == 1
   unsigned blk[NQ]; unsigned B = 1; blk[0] = 0;                 // restricted growth string: blocks numbered by their least state
   for (unsigned q = 1; q < NQ; ++q) { blk[q] = vs_range(q + 1); vs_assume(blk[q] <= B); B = blk[q] == B ? B + 1 : B; }
@@ -62,12 +69,23 @@ extern "C" void harness(void)
   vs_assume(out <= ns);
 
   // ---- the system under test
-  ExplicitLTS lts(CT);
-  T.build(lts);
-#ifdef FILLCHAIN   // the filler states form a chain NQ -> NQ+1 -> ... (label 0): pairwise different, so the partition grows to FILL blocks one split at a time
-  for (unsigned i = 0; i + 1 < FILL; ++i) lts.addTransition(NQ + i, 0, NQ + i + 1);
+#ifdef FILLFIRST
+  ExplicitLTS lts(NQ + FILL);      // the core states are the last ones: they exist even if no edge mentions them
 #else
-  for (unsigned i = 0; i < FILL; ++i) lts.addTransition(NQ + i, 0, NQ + i);
+  ExplicitLTS lts(CT);
+#endif
+#ifdef FILLFIRST   // the filler states take the numbers 0..FILL-1, the symbolic core follows (the core's counters then sit behind the fillers')
+  enum { COFF = FILL, FOFF = 0 };
+#else
+  enum { COFF = 0, FOFF = NQ };
+#endif
+  T.build(lts, COFF);
+#ifdef FILLBOTH    // the filler states carry self loops on labels 0 AND 1: the counters of both labels span several rows, with overlapping row ranges
+  for (unsigned i = 0; i < FILL; ++i) { lts.addTransition(FOFF + i, 0, FOFF + i); lts.addTransition(FOFF + i, 1, FOFF + i); }
+#elif defined(FILLCHAIN)   // the filler states form a chain NQ -> NQ+1 -> ... (label 0): pairwise different, so the partition grows to FILL blocks one split at a time
+  for (unsigned i = 0; i + 1 < FILL; ++i) lts.addTransition(FOFF + i, 0, FOFF + i + 1);
+#else
+  for (unsigned i = 0; i < FILL; ++i) lts.addTransition(FOFF + i, 0, FOFF + i);
 #endif
   lts.init();
   CHECK(lts.states() == ns, 1);
@@ -101,8 +119,8 @@ extern "C" void harness(void)
   // ---- the property
   CHECK(res.size() == out, 2);
   unsigned long got = 0, want = 0;
-  for (unsigned q = 0; q < NQ; ++q) for (unsigned r = 0; r < NQ; ++r) if ((q < out) & (r < out)) {
-    bool g = res.get(q, r);
+  for (unsigned q = 0; q < NQ; ++q) for (unsigned r = 0; r < NQ; ++r) if ((COFF + q < out) & (COFF + r < out)) {
+    bool g = res.get(COFF + q, COFF + r);
 #ifdef VS_SELFTEST_2
     bool w = S[r][q];                         // seeded wrong expectation: direction of the relation swapped
 #else
